@@ -1,7 +1,7 @@
 /-
   S2.EdgeNum — model of the numeric edge primitives of golang/geo (core-only, executable).
 
-  (C16)  s2/edge_crossings.go : compareEdges, Intersection, intersectionStable,
+  (C16)  s2/edge_crossings.go : compareEdges, canonicalEdges, Intersection, intersectionStable,
          intersectionStableSorted, projection, robustNormalWithLength, intersectionExact
          r3/precisevector.go  : Cross, Vector  (math/big.Float at 2^26 bits never rounds here; the
                                  only rounding is `Float64()` = round-to-nearest-even, incl. the SIGN
@@ -24,9 +24,11 @@ import S2.STUV
 import S2.Exact
 import S2.Pred
 import S2.Contain
-/- NOTE: this is the model of the REPAIRED code (docs/fixes/fix_C16_F1..F4.diff, fix_C17_F6.diff): the `Norm2 < DBL_MIN` guard in
+/- NOTE: this is the model of the REPAIRED code (docs/fixes/fix_C16_F1..F4.diff, fix_C17_F6.diff,
+   D50_intersection_canonical_order.diff): the `Norm2 < DBL_MIN` guard in
    intersectionStableSorted, the power-of-two scaling in PreciseVector.Vector(), the lexicographic-minimum collinear rule, the
-   zero canonicalisation at the exit of Intersection, and the clamp to 4 in updateMinDistance. -/
+   zero canonicalisation at the exit of Intersection, the canonical argument order (`canonicalEdges`) at its entry, and the
+   clamp to 4 in updateMinDistance. -/
 namespace S2.EdgeNum
 open S2 S2.Exact S2.Pred
 
@@ -151,13 +153,30 @@ def stableArgs (a0 a1 b0 b1 : V3) : V3 × V3 × V3 × V3 :=
   if F64.lt aLen2 bLen2 || (F64.feq aLen2 bLen2 && compareEdges a0 a1 b0 b1) then (b0, b1, a0, a1)
   else (a0, a1, b0, b1)
 
-/-- `intersectionStable` over an arbitrary sorted kernel -/
+/-- `canonicalEdges(a0,a1,b0,b1)` (repair D50): the endpoints of each edge in `Cmp` order (the same test as in
+    `compareEdges`: swap unless `a0.Cmp(a1) == -1`), then the longer edge first, ties broken by `compareEdges`.  The
+    tuple on which BOTH kernels and the hemisphere correction of `Intersection` work. -/
+def canonArgs (a0 a1 b0 b1 : V3) : V3 × V3 × V3 × V3 :=
+  let a := sortEdge a0 a1
+  let b := sortEdge b0 b1
+  stableArgs a.1 a.2 b.1 b.2
+
+/-- `intersectionStable` over an arbitrary sorted kernel: the kernel on the canonical tuple -/
 def intersectionStableG (K : V3 → V3 → V3 → V3 → Option V3) (a0 a1 b0 b1 : V3) : Option V3 :=
-  let t := stableArgs a0 a1 b0 b1
+  let t := canonArgs a0 a1 b0 b1
   K t.1 t.2.1 t.2.2.1 t.2.2.2
 
 def intersectionStable (a0 a1 b0 b1 : V3) : Option V3 :=
   intersectionStableG intersectionStableSorted a0 a1 b0 b1
+
+/-- BEFORE repair D50 (kept for the regression theorems of S2Proofs.Properties.C16 / C16_Sym): `intersectionStable` sorted
+    the two edges only (`stableArgs`), not the endpoints inside an edge -/
+def intersectionStableGOld (K : V3 → V3 → V3 → V3 → Option V3) (a0 a1 b0 b1 : V3) : Option V3 :=
+  let t := stableArgs a0 a1 b0 b1
+  K t.1 t.2.1 t.2.2.1 t.2.2.2
+
+def intersectionStableOld (a0 a1 b0 b1 : V3) : Option V3 :=
+  intersectionStableGOld intersectionStableSorted a0 a1 b0 b1
 
 /-- `robustNormalWithLength(x, y)` (not used by Intersection in the Go port; kept for completeness) -/
 def robustNormalWithLength (x y : V3) : V3 × F64 :=
@@ -240,17 +259,32 @@ def signCorrect (pt s : V3) : V3 := if F64.lt (pt.dot s) fz then pt.mul fNegOne 
 def canonZero (p : V3) : V3 := p.add zero3
 
 /-- `Intersection` over arbitrary numeric kernels `K` (= intersectionStableSorted) and
-    `E` (= intersectionExact) -/
+    `E` (= intersectionExact).  Repair D50: the argument order is canonicalised ONCE (`canonArgs`) and the SAME tuple goes
+    to the stable kernel, to the exact kernel and into the vertex sum of the hemisphere correction. -/
 def intersectionG (K : V3 → V3 → V3 → V3 → Option V3) (E : V3 → V3 → V3 → V3 → V3)
     (a0 a1 b0 b1 : V3) : V3 :=
-  let pt := match intersectionStableG K a0 a1 b0 b1 with
+  let t := canonArgs a0 a1 b0 b1
+  let pt := match K t.1 t.2.1 t.2.2.1 t.2.2.2 with
     | some p => p
-    | none => E a0 a1 b0 b1
-  canonZero (signCorrect pt (sum4 a0 a1 b0 b1))
+    | none => E t.1 t.2.1 t.2.2.1 t.2.2.2
+  canonZero (signCorrect pt (sum4 t.1 t.2.1 t.2.2.1 t.2.2.2))
 
 /-- `Intersection(a0,a1,b0,b1)` -/
 def intersection (a0 a1 b0 b1 : V3) : V3 :=
   intersectionG intersectionStableSorted intersectionExact a0 a1 b0 b1
+
+/-- BEFORE repair D50: only the stable kernel saw sorted EDGES (`stableArgs`); the exact kernel and the vertex sum were
+    evaluated on the caller's order.  Kept as the object of the pre-repair theorems (sign symmetry of the kernels, the
+    necessary side conditions `DecisiveAt` / `OccwSym`, and the in-contract order dependence D50). -/
+def intersectionGOld (K : V3 → V3 → V3 → V3 → Option V3) (E : V3 → V3 → V3 → V3 → V3)
+    (a0 a1 b0 b1 : V3) : V3 :=
+  let pt := match intersectionStableGOld K a0 a1 b0 b1 with
+    | some p => p
+    | none => E a0 a1 b0 b1
+  canonZero (signCorrect pt (sum4 a0 a1 b0 b1))
+
+def intersectionOld (a0 a1 b0 b1 : V3) : V3 :=
+  intersectionGOld intersectionStableSorted intersectionExact a0 a1 b0 b1
 
 /-! ### C17 : distances -/
 
